@@ -1336,6 +1336,7 @@ def build_resolve(repo, external=(), canary=None, with_witness=True, boost=False
     b.add(TERM_VARIANT_IMPORT)
     b.add(read("spec/core_prelude_term.rs"))
     b.add(read("spec/core_spec.rs"))
+    b.add(read("spec/resolve_holes.rs"))
     b.add("}\n")
     sv = Woven(parser_rs, "struct", "SourceVariable", log)
     if sv.attrs != ["#[derive(Clone, Copy, Debug)]"]:
@@ -1379,11 +1380,71 @@ def build_resolve(repo, external=(), canary=None, with_witness=True, boost=False
     rv = Woven(parser_rs, "fn", "resolve_variables", log)
     weave_resolve_contract(rv, sc)
     b.add_fn(rv, external="resolve_variables" in external)
+    # second half of the unit: the definition-order check that parse() runs on the resolved term
+    b.add(read("spec/resolve_defcheck.rs"))
+    cds = Woven(parser_rs, "fn", "check_definitions", log)
+    weave_check_definitions(cds, sc)
+    b.add_fn(cds, external="check_definitions" in external)
+    cdn = Woven(parser_rs, "fn", "check_definition", log)
+    weave_check_definition(cdn, sc)
+    b.add_fn(cdn, external="check_definition" in external)
     if with_witness:
         b.add(read("spec/resolve_witness.rs"))
         b.add(sc["canary.calls"])
     b.add("} // verus!\nfn main() {}\n")
     return b
+
+
+def error_pushes_opaque(w):
+    """R15: `errors.push(throw::<Error>( .. ))` -> `errors.push(opaque_error())`"""
+    i = 0
+    n = 0
+    while i < len(w.lines):
+        if re.match(r"^\s*errors\.push\(throw::<Error>\($", w.lines[i]):
+            j = w.block_end(i)
+            ind = re.match(r"^\s*", w.lines[i]).group(0)
+            w.rewrite_lines("R15-error-value", i, j, [ind + "errors.push(opaque_error());"], note="the error value (message, listing) is outside the property; only the fact that one is pushed matters")
+            n += 1
+        i += 1
+    return n
+
+
+def weave_check_definitions(w, sc):
+    strip_clippy(w)
+    w.rewrite_regex("R2-type-substitution", r"source_path: Option<&'a Path>,", "source_path: SourcePath<'a>,", expect=1, note="only passed on to the error constructors")
+    w.contract(sc["check_definitions.contract"])
+    w.body_first(sc["check_definitions.first"])
+    # R9: the hole read (under the precondition every visited hole is unresolved: the recursion through it is dead)
+    n = 0
+    for k, l in enumerate(w.lines):
+        new = re.sub(r"\{ (\w+)\.borrow\(\)\.clone\(\) \}", r"term::hole_content(\1)", l)
+        if new != l:
+            w.log["rewrites"].append({"rule": "R9-hole-read", "site": w._where(k), "before": l, "after": new, "note": "RefCell read + clone as a stub with the assumed frozen-content contract"})
+            w.lines[k] = new
+            n += 1
+    if n != 1:
+        raise LostAnchor(f"{w.src.rel} fn check_definitions: expected one hole read, found {n}")
+    # R23: `assert_eq!(A, B);` -> `if A != B { panic!(..); }` (Verus does not support the macro's expansion; a panic! is an
+    # unreachability obligation, exactly what the assertion demands)
+    if w.rewrite_regex("R23-assert-eq", r"^(\s*)assert_eq!\(([^,]+), ([^,]+)\);$", r'\1if \2 != \3 { panic!("assertion failed: left == right"); }', note="assert_eq!(a, b) panics iff a != b; written as an explicit test + panic!, which Verus must prove unreachable") != 1:
+        raise LostAnchor(f"{w.src.rel} fn check_definitions: expected one assert_eq!")
+    i = w.find(r"^\s*for \w+ in 0\.\.definitions\.len\(\) \{$")
+    w.lines[i:i] = ["            let ghost e0 = errors@;"]
+    w.for_invariant(1, "it", sc["check_definitions.loop"], regex=r"^\s*for \w+ in 0\.\.definitions\.len\(\) \{$")
+
+
+def weave_check_definition(w, sc):
+    strip_clippy(w)
+    w.rewrite_regex("R2-type-substitution", r"source_path: Option<&'a Path>,", "source_path: SourcePath<'a>,", expect=1, note="only passed on to the error constructors")
+    w.contract(sc["check_definition.contract"], attrs="#[verifier::exec_allows_no_decreases_clause]")
+    if error_pushes_opaque(w) != 1:
+        raise LostAnchor(f"{w.src.rel} fn check_definition: expected one `errors.push(throw::<Error>(..))`")
+    # R22: by-value iteration of a HashSet<usize> -> iteration by reference + copy of the element
+    i = w.find(r"^    for (\w+) in (\w+) \{$")
+    m = re.match(r"^    for (\w+) in (\w+) \{$", w.lines[i])
+    var, setv = m.group(1), m.group(2)
+    w.rewrite_lines("R22-hashset-by-value", i, i, ["    let ghost e0 = errors@;", f"    for {var}_ref in it: {setv}.iter()"] + sc["check_definition.loop"].rstrip("\n").split("\n") + ["    {", f"        let {var} = *{var}_ref;"],
+                    note="`for x in set` (by value, consumes the set, which is not used afterwards) as `for x_ref in set.iter()` + copy of the usize element; same elements, same (unspecified) order")
 
 
 def weave_resolve_contract(w, sc):
@@ -1583,6 +1644,7 @@ def weave_parse_full(w, sc, flavor):
     if not ma:
         raise LostAnchor(f"{w._where(i)}: the call of resolve_variables is not as expected")
     arg, errs = ma.group(1), ma.group(3)
+    ctxv = ma.group(2)
     # the accepting exit: the last `Ok(..)` of the function -- either the then-branch of an `if .. {` (the hint goes
     # before the `if`) or the tail expression (the hint goes right before it)
     oks = [k for k in range(ce + 1, len(w.lines)) if re.match(r"^\s+Ok\(", w.lines[k])]
@@ -1595,6 +1657,7 @@ def weave_parse_full(w, sc, flavor):
         raise LostAnchor(f"{w._where(k)}: the accepting exit is not in a recognised position")
     fill = lambda t: t.replace("$ERRORS", errs).replace("$TOKENS", toks).replace("$TERM", term).replace("$P1", p1n).replace("$P2", p2n).replace("$P3", p3).replace("$ARG", arg).replace("$RESOLVED", resolved).replace("$C1", CLASS_OF[f1]).replace("$C2", CLASS_OF[f2]).replace("$C3", CLASS_OF[f3])
     w.lines[k:k] = fill(sc["parse.end." + flavor]).rstrip("\n").split("\n")
+    w.lines[ce + 1 : ce + 1] = fill(sc["parse.resolved." + flavor]).replace("$CTX", ctxv).rstrip("\n").split("\n")
     w.lines[i:i] = fill(sc["parse.handover." + flavor]).rstrip("\n").split("\n")
     w.contract(sc["parse.contract." + flavor], ret="r")
     w.body_first(sc["parse.first"])
@@ -1634,6 +1697,7 @@ def build_pipeline(repo, external=(), canary=None, with_witness=True, boost=Fals
     b.add(TERM_VARIANT_IMPORT)
     b.add(read("spec/core_prelude_term.rs"))
     b.add(read("spec/core_spec.rs"))
+    b.add(read("spec/resolve_holes.rs"))
     b.add("}\n")
     sv = Woven(parser_rs, "struct", "SourceVariable", log)
     b.add("#[derive(Clone, Copy)]\n" + sv.text())
@@ -1653,7 +1717,15 @@ def build_pipeline(repo, external=(), canary=None, with_witness=True, boost=Fals
     b.add(read("spec/resolve_spec.rs"))
     b.add(read("spec/resolve_context.rs"))
     b.add(read("spec/resolve_lemmas.rs"))
-    b.add(read("spec/pipeline_spec.rs"))
+    cd_spec = read("spec/resolve_defcheck.rs")
+    b.add(cd_spec[cd_spec.index("// an upper bound on what `depth` can grow to"):])      # cd_depth only; the two stubs of that file are not needed here
+    cds = Woven(parser_rs, "fn", "check_definitions", log)
+    strip_clippy(cds)
+    cds.rewrite_regex("R2-type-substitution", r"source_path: Option<&'a Path>,", "source_path: SourcePath<'a>,", expect=1)
+    cds.contract(sc6["check_definitions.contract"] if flavor == "C08" else "    // (no contract in the C07 flavour of this unit)\n")
+    ls = cds.lines
+    stub = "#[verifier::external_body]\n" + "\n".join(ls[: ls.index("{")]) + "\n{ unimplemented!() }\n"
+    b.add(read("spec/pipeline_spec.rs").replace("$CHECK_DEFINITIONS_STUB", stub))
     # the callees, each with the contract it is verified against in its own unit (bodies cut)
     pt = Woven(parser_rs, "fn", "parse_term", log)
     weave_parse_fn(pt, "Term", sc5)
@@ -1676,19 +1748,6 @@ def build_pipeline(repo, external=(), canary=None, with_witness=True, boost=Fals
     # C07 says nothing about resolve_variables: there it is a stub without a contract (its preconditions are C08's business)
     rv.contract(sc6["resolve_variables.contract"] if flavor == "C08" else "    // (no contract in the C07 flavour of this unit)\n", ret="r")
     b.add_fn(rv, external=True)
-    if flavor == "C08":
-        # ASSUMPTION GUARD: the stub of check_definitions says "only ever pushes errors".  That is accepted only while it
-        # is syntactically evident: in check_definitions / check_definition the parameter `errors` occurs only in the
-        # signature, as `errors.push(`, and as an argument of a call to one of the two functions.
-        for fname in ("check_definitions", "check_definition"):
-            cdw = Woven(parser_rs, "fn", fname, log)
-            for n, l in enumerate(cdw.lines):
-                code = l.split("//")[0]
-                for mm in re.finditer(r"\berrors\b", code):
-                    before, after = code[: mm.start()], code[mm.end() :]
-                    ok = after.startswith(": &mut Vec<Error>") or after.startswith(".push(") or (after[:1] in (",", ")") and not before.rstrip().endswith(("=", "*")))
-                    if not ok:
-                        raise LostAnchor(f"{cdw._where(n)}: the assumption 'check_definitions only pushes errors' is no longer syntactically evident: `{l.strip()}`")
     pa = Woven(parser_rs, "fn", "parse", log)
     weave_parse_full(pa, sc, flavor)
     b.add_fn(pa, external="parse" in external)
@@ -1705,7 +1764,7 @@ def canaries(unit):
     if unit == "parser":
         return {fn: fn + ".canary" for fn in ("reassociate_applications", "reassociate_products_and_quotients", "reassociate_sums_and_differences")}
     if unit == "resolve":
-        return {fn: fn + ".canary" for fn in ("resolve_variables", "collect_definitions")}
+        return {fn: fn + ".canary" for fn in ("resolve_variables", "collect_definitions", "check_definitions")}
     if unit == "conv":
         return {fn: fn + ".canary" for fn in ("syntactically_equal", "normalize_weak_head", "unify")}
     if unit == "packrat":
